@@ -82,6 +82,7 @@ type childRun struct {
 	procs    int
 	deadline time.Time
 	restarts int
+	tailN    int // bytes of child stderr kept (default 8000)
 	mu       sync.Mutex
 }
 
@@ -227,7 +228,11 @@ func (c *childRun) once(hs []*History, emit func(outcome)) (int, bool) {
 		}
 		res.Failures = append(res.Failures, Failure{"panic", sig, det})
 	}
-	emit(outcome{h: cur, res: res, stderr: tail(es, 6000)})
+	n := c.tailN
+	if n <= 0 {
+		n = 8000
+	}
+	emit(outcome{h: cur, res: res, stderr: tail(es, n)})
 	return done + 1, true
 }
 
@@ -421,6 +426,9 @@ func runBatch(cfg *batchCfg) *Summary {
 // runOne executes a single history in a child and returns its outcome.
 func runOne(exe string, h *History, trace bool, procs int) outcome {
 	cr := &childRun{exe: exe, trace: trace, procs: procs}
+	if trace {
+		cr.tailN = 400000 // replay: the whole dump
+	}
 	var got outcome
 	cr.run([]*History{h}, func(oc outcome) { got = oc })
 	return got
